@@ -702,7 +702,7 @@ void sm4_cbc_encrypt_blocks(const SM4_KEY *key, uint8_t iv[16], const uint8_t *i
 	PUTU32(iv     , X0);
 	PUTU32(iv +  4, X4);
 	PUTU32(iv +  8, X3);
-	PUTU32(iv + 12, X2);
+	PUTU32(iv + 12, X5);
 }
 
 void sm4_cbc_decrypt_blocks(const SM4_KEY *key, uint8_t iv[16], const uint8_t *in, size_t nblocks, uint8_t *out)
